@@ -522,15 +522,16 @@ def standin_aqt(tier, seed):
         elif any(rows[r][i] != int(i in flipped) for r in range(rows.shape[0]) for i in used):
             fails.append(dict(args=dict(circuit=repr(c), samples=rows.tolist()), failed="aqt-sample-columns", clause="column i of the samples is not the measurement of LineQubit(i)"))
     # a qubit without a register position (negative line index) is refused, not sent as an index counted from the end
-    for neg in (cirq.Circuit(flip.on(cirq.LineQubit(-1)), (cirq.Z ** 0.5).on(cirq.LineQubit(1))), cirq.Circuit((cirq.XX ** 0.5).on(cirq.LineQubit(0), cirq.LineQubit(-2)))):
+    for neg in (cirq.Circuit(flip.on(cirq.LineQubit(-1)), (cirq.Z ** 0.5).on(cirq.LineQubit(1))), cirq.Circuit((cirq.XX ** 0.5).on(cirq.LineQubit(0), cirq.LineQubit(-2))),
+                cirq.Circuit(cirq.ZPowGate(dimension=3).on(cirq.LineQid(0, dimension=3))), cirq.Circuit(flip.on(cirq.LineQubit(0)), (cirq.ZPowGate(dimension=3) ** 0.5).on(cirq.LineQid(1, dimension=3)))):
         cases += 1
         try:
             res = AQTSamplerLocalSimulator(simulate_ideal=True).run(neg, repetitions=2)
-            fails.append(dict(args=dict(circuit=repr(neg), samples=np.asarray(res.measurements["m"]).astype(int).tolist()), failed="aqt-negative-index", clause="a circuit on a line qubit with a negative index was run (the index addresses the register from its end)"))
+            fails.append(dict(args=dict(circuit=repr(neg), samples=np.asarray(res.measurements["m"]).astype(int).tolist()), failed="aqt-negative-index", clause="a circuit on a qubit without a register position (negative index) or on a qudit was run (sent as a qubit operation at some position)"))
         except ValueError:
             pass
         except Exception as ex:
-            fails.append(dict(args=dict(circuit=repr(neg)), failed="aqt-negative-index", clause=f"a circuit on a line qubit with a negative index raised {type(ex).__name__}: {ex} instead of being refused"))
+            fails.append(dict(args=dict(circuit=repr(neg)), failed="aqt-negative-index", clause=f"a circuit on a qubit without a register position or on a qudit raised {type(ex).__name__}: {ex} instead of being refused"))
     return dict(function="cirq-aqt/cirq_aqt/aqt_sampler.py:AQTSampler._generate_json", case="aqt", bound="seeded circuits over Z/R/MS (phase exponents in and outside [0, 1)), 2-3 qubits, <= 5 ops; negative line indices refused; basis-state circuits on arbitrary subsets of 5 line qubits through the local sampler",
                 cases=cases, distinct=cases, failures=len(fails), exhaustive=False, _fails=fails[:3])
 standin_aqt.prop = "C17"
